@@ -401,8 +401,12 @@ class SimpleHeatPumpCycle:
 
         def _build_streams(profile: np.ndarray, is_hot: bool): 
 
-            # Profile enthalpies are in J/kg while the cycle metrics (and self._m_dot) are per kJ/kg
-            m_dot = self._m_dot / 1000
+            # Profile enthalpies are in J/kg while the cycle metrics (and self._m_dot) are per kJ/kg.
+            # The condenser set carries the requested condenser duty; the evaporator set the solved evaporator duty.
+            if is_hot:
+                m_dot = self._Q_cond / abs(profile[0,0] - profile[-1,0])
+            else:
+                m_dot = self._m_dot / 1000
             sc = StreamCollection()
             for i in range(len(profile) - 1):
                 h1, T1 = profile[i]
